@@ -121,3 +121,36 @@ impl<W: Write> crate::Output for Output<W> {
 		self.0.flush()
 	}
 }
+
+/// Verification hooks over the private encoding and chunker modules.
+#[cfg(feature = "verif")]
+pub(crate) mod verif_shims {
+	use std::io::{self, BufRead, Read};
+
+	use super::chunker::Chunker;
+	use super::encoding::{Encoder, Encoding};
+
+	pub(crate) fn encoder<'a, R: BufRead + 'a>(reader: R) -> io::Result<Box<dyn Read + 'a>> {
+		Ok(Box::new(Encoder::from_reader(reader)?))
+	}
+
+	pub(crate) fn detect_encoding(prefix: &[u8]) -> &'static str {
+		match Encoding::detect(prefix) {
+			Encoding::Utf8 => "utf-8",
+			Encoding::Utf16Big => "utf-16be",
+			Encoding::Utf32Big => "utf-32be",
+			Encoding::Utf16Little => "utf-16le",
+			Encoding::Utf32Little => "utf-32le",
+		}
+	}
+
+	pub(crate) fn chunks<R: Read>(
+		reader: R,
+		limit: usize,
+	) -> Vec<io::Result<(String, bool)>> {
+		Chunker::new(reader)
+			.take(limit)
+			.map(|doc| doc.map(|doc| (doc.content().to_owned(), doc.is_collection())))
+			.collect()
+	}
+}
